@@ -30,6 +30,17 @@ def run(ck):
                 rows = [r if any(ch.isalpha() for ch in r) else 'A' + r[1:] for r in rows]
                 names = ['r%03d_%s' % (i, names[i % len(names)][:20]) for i in range(nrow)]
                 ck.count('alignments of 93..130 rows')
+            if k % 10 == 3:     # rows whose 512th / 1024th residue is followed (or preceded) by gaps: the readers grow the sequence and
+                                # gap arrays at these residue counts
+                R = rng.choice([512, 512, 1024])
+                alpha = gen.DNA if kind == 'dna' else gen.PROT
+                rows, tot = [], R + rng.range(20, 90)
+                for i in range(rng.range(2, 4)):
+                    cut = R + rng.choice([-1, 0, 0, 1]); g = rng.range(1, 9)
+                    body = gen.rand_seq(rng, alpha, cut) + '-' * g + gen.rand_seq(rng, alpha, max(1, tot - cut - g))
+                    rows.append(body[:tot].ljust(tot, '-'))
+                names = ['b%d_%d' % (R, i) for i in range(len(rows))]
+                ck.count('rows with gaps at the %d-residue boundary' % R)
             src = os.path.join(tmp, 's%d.fa' % k)
             open(src, 'w').write(gen.fasta(names, rows))
             cases.append((k, kind, names, rows, src))
